@@ -1,3 +1,4 @@
 SPECIFICATION Spec
-CONSTANTS MaxWrites = 2 MaxPolls = 2 BumpInsideLock = FALSE
+CONSTANTS MaxWrites = 2 MaxPolls = 2 TwoLoads = FALSE
+  BumpInsideLock = FALSE
 INVARIANTS NewAfterReport
